@@ -46,6 +46,7 @@ type c07Case struct {
 	Slots []string `json:"slots"` // values of the request's component slots ("\x01" = benign default)
 	Raw   []byte   `json:"raw"`   // kind rawpath: the raw path field
 	Own   bool     `json:"own"`   // the requester's account has its own file root (configured with a trailing slash)
+	Gone  bool     `json:"gone,omitempty"` // the requester's own file root does not exist (yet, or any more)
 	Uni   bool     `json:"uni"`   // the requester's own file root has a name that is not ASCII ("Rööt")
 }
 
@@ -157,6 +158,9 @@ func c07Run(w *explore.Worker, c c07Case) {
 		if c.Uni {
 			own = "non-ascii-root/"
 		}
+		if c.Gone {
+			own = "missing-root/"
+		}
 		w.Violation("C07/"+own+c.Kind+"/"+clause+"/pos="+strings.Join(hostilePos, "+"), fmt.Sprintf("case %s: %s", js(c), detail), len(hostilePos)*100+len(js(c)), c)
 	}
 	seqChecked(w, "C07", c.Kind, c, func() {
@@ -166,6 +170,7 @@ func c07Run(w *explore.Worker, c c07Case) {
 			Accounts: []world.Acct{{Login: "guest", Name: "Guest"}, {Login: "u", Name: "u", Password: "pw", Access: world.AllAccess},
 				{Login: "r", Name: "r", Password: "pw", Access: world.AllAccess, FileRoot: "$CONFIG/Rroot/"},
 				{Login: "n", Name: "n", Password: "pw", Access: world.AllAccess, FileRoot: "$CONFIG/Rööt"},
+				{Login: "g", Name: "g", Password: "pw", Access: world.AllAccess, FileRoot: "$CONFIG/Gone"},
 				{Login: "vic", Name: "Victim", Password: "vp", Access: world.Bits(ref.PReadChat)}},
 		})
 		defer wd.Close()
@@ -175,6 +180,9 @@ func c07Run(w *explore.Worker, c c07Case) {
 		}
 		if c.Uni {
 			login, rootName = "n", "Rööt"
+		}
+		if c.Gone {
+			login, rootName = "g", "Gone"
 		}
 		u, r := wd.Connect("10.0.0.1:1001", login, "pw", "u")
 		if r == nil || r.Err != 0 {
@@ -304,6 +312,18 @@ func c07Run(w *explore.Worker, c c07Case) {
 			send(ref.Tx{Type: ref.TGetUser, Fields: []ref.Fld{ref.FS(ref.FUserLogin, val("login", "vic"))}})
 		}
 		after, usersAfter := c07Outside(wd, rootName)
+		if c.Gone {
+			// the root itself counts as inside: a request may create the missing root as a directory
+			if st, err := os.Lstat(filepath.Join(wd.ConfigDir, rootName)); err == nil && st.IsDir() {
+				var kept []string
+				for _, l := range after {
+					if l != "config/"+rootName+" <root itself>" {
+						kept = append(kept, l)
+					}
+				}
+				after = kept
+			}
+		}
 		if strings.Join(before, "\n") != strings.Join(after, "\n") {
 			fail("outside-root-changed", diffLines(strings.Join(before, "\n"), strings.Join(after, "\n")))
 		}
@@ -426,6 +446,25 @@ func c07Cases(thorough bool) []c07Case {
 				sl := append([]string(nil), base...)
 				sl[i] = h
 				cs = append(cs, c07Case{Kind: kind, Slots: sl, Uni: true})
+			}
+		}
+	}
+	// and for an account whose file root does not exist: requests aimed at the root itself work next to it
+	for _, kind := range c07KindOrder {
+		if strings.HasPrefix(kind, "acct") {
+			continue
+		}
+		slots := c07Kinds[kind]
+		base := make([]string, len(slots))
+		for i := range base {
+			base[i] = benign
+		}
+		cs = append(cs, c07Case{Kind: kind, Slots: append([]string(nil), base...), Gone: true})
+		for i := range slots {
+			for _, h := range []string{"", ".", ".."} {
+				sl := append([]string(nil), base...)
+				sl[i] = h
+				cs = append(cs, c07Case{Kind: kind, Slots: sl, Gone: true})
 			}
 		}
 	}
